@@ -27,6 +27,7 @@ func init() {
 			ruleC05R10(r)
 			ruleAlwaysCancels(r, "R11")
 			ruleAsTargetMatchesProducer(r, "R12")
+			ruleC05R13(r)
 		},
 	})
 }
